@@ -86,6 +86,19 @@ def c03_forms(rng, n):
                 out.append({"c": "dow_after", "p": [w], "s": tpl.format(w=name), "t": "this:" + tpl})
             elif kind == "next":
                 tpl = rng.choice(NEXT)
+                if rng.random() < 0.4:
+                    # any alternative of ruleNextDOW's own pattern (grammatical or not):
+                    # (am )?(dem |den )?(kommende[n]|nächste[n])( woche)? / (on |at )?(the )?(next|following)( week)?
+                    if rng.random() < 0.6:
+                        tpl = rng.choice(["", "am "]) + rng.choice(["", "dem ", "den "]) + \
+                            rng.choice(["kommende", "kommenden", "nächste", "nächsten"]) + \
+                            rng.choice(["", " woche"]) + " {w}"
+                    else:
+                        tpl = rng.choice(["", "on ", "at "]) + rng.choice(["", "the "]) + \
+                            rng.choice(["next", "following"]) + rng.choice(["", " week"]) + " {w}"
+                    if rng.random() < 0.2:
+                        # the two-letter German abbreviations are unambiguous after such a prefix
+                        name = ["mo", "di", "mi", "do", "fr", "sa", "so"][w]
                 out.append({"c": "dow_next", "p": [w], "s": tpl.format(w=name), "t": "next:" + tpl})
             else:
                 tpl = rng.choice(NEXTWEEK)
@@ -254,6 +267,19 @@ def is_military_year(y):
     return 0 <= y // 100 <= 23 and y % 100 <= 59 and (y % 100) % 5 == 0
 
 
+def style_ampm(rng, s):
+    """the am / pm marker after a digit in another customary spelling (AM, a.m., P.M.); the
+    German preposition "am" (never directly after a digit) is left alone"""
+    import re as _re
+
+    def sub(m):
+        a = m.group(2)
+        v = rng.choice([a.upper(), a[0] + "." + a[1] + ".", (a[0] + "." + a[1] + ".").upper(),
+                        a[0].upper() + a[1]])
+        return m.group(1) + v
+    return _re.sub(r"(\d ?)(am|pm)\b(?!\.)", sub, s)
+
+
 def c05_forms(rng, n):
     import calendar as _c
     out = []
@@ -329,6 +355,8 @@ def c05_forms(rng, n):
         if rng.random() < 0.1:
             # brackets / a trailing comma: pre-processing turns them into blanks
             s = rng.choice(["(%s)", "%s,", "[%s]", "%s ;"]) % s
+        if rng.random() < 0.15:
+            s = style_ampm(rng, s)
         if hour_only and tpl in MONTHNAME_TPLS:
             t = "abs:monthname+hour-only-clock|" + order
         if two_digit and y < 2000:
@@ -433,6 +461,22 @@ def c06_forms(rng, n, year_hint=2020):
                 return ((NAMED_DE if de else NAMED_EN)[x - 1] if named else str(x)) + suffix
             f = (tpl.format(H=w(H) if 1 <= H <= 12 else H, H1=w(H1) if 1 <= H1 <= 12 else H1),
                  "spoken:" + tpl + (":named" if named else "") + (":" + suffix.strip() if suffix else ""))
+            if not suffix and rng.random() < 0.3:
+                # ... followed by a part of day that says which half of the day is meant
+                # ("quarter to one in the afternoon" = 12:45, "halb acht abends" = 19:30)
+                hr = h  # the hour the spoken form denotes on the 12-hour dial (0..12)
+                opts = []
+                if 1 <= hr <= 11:
+                    opts.append((rng.choice(["in the morning", "morgens"]), hr))
+                if 1 <= hr <= 5 or hr in (0, 12):
+                    opts.append((rng.choice(["in the afternoon", "nachmittags"]),
+                                 12 if hr in (0, 12) else hr + 12))
+                if 5 <= hr <= 11:
+                    opts.append((rng.choice(["in the evening", "abends"]), hr + 12))
+                if opts:
+                    pw, h24 = rng.choice(opts)
+                    f = (f[0] + " " + pw, "spokenpod:" + tpl + " <part of day>")
+                    h = h24
         elif k == "named":
             if mi or not (1 <= h <= 12):
                 continue
@@ -478,5 +522,7 @@ def c06_forms(rng, n, year_hint=2020):
             f = (rng.choice(["midnight", "mitternacht"]), "midnight")
         if f is None:
             continue
+        if rng.random() < 0.12:
+            f = (style_ampm(rng, f[0]), f[1])
         out.append({"c": "clock", "p": [h, mi], "s": f[0], "t": "clock:" + f[1]})
     return out
